@@ -56,7 +56,9 @@ pub fn tracegen_only(prop: &str, seed: u64, runs: usize, only: Option<usize>) ->
                 prop,
                 run,
                 s,
-                Knobs { p_x: 0.22, p_c: 0.22, p_z: 0.05, bidir: true, max_depth: 2, max_stmts: 8, p_row: 0.6, p_loop: 0.15, p_repeat: 0.1, p_while: 0.03, max_bound: 2, ..Knobs::control_flow() },
+                // (few variables and shallow expressions: what rows are made of is other properties' business)
+                Knobs { p_x: 0.22, p_c: 0.22, p_z: 0.05, bidir: true, max_depth: 2, max_stmts: 8, p_row: 0.6, p_loop: 0.15, p_repeat: 0.1, p_while: 0.03, max_bound: 2, p_let: 0.05, p_expr: 0.25, expr_depth: 1,
+                        ..Knobs::control_flow() },
                 Opt { max_rows: 150, many_outputs_in_header: true, ..Opt::default() },
             ),
             "C13" => general_run(
@@ -77,7 +79,7 @@ pub fn tracegen_only(prop: &str, seed: u64, runs: usize, only: Option<usize>) ->
                 prop,
                 run,
                 s,
-                Knobs { allow_random: true, p_reset: 0.12, big_consts: run % 3 == 0, max_virtuals: 1, p_x: 0.05, p_c: 0.05, ..Knobs::control_flow() },
+                Knobs { allow_random: true, p_reset: 0.12, big_consts: run % 3 == 0, max_virtuals: 1, p_x: 0.05, p_c: 0.05, max_depth: 3, p_while: 0.04, ..Knobs::control_flow() },
                 Opt::default(),
             ),
             "C20" => {
@@ -444,6 +446,9 @@ fn width_run(prop: &str, run: usize, seed: u64) -> Vec<J> {
         es[col("D")] = Entry::Z;
         es[col("O")] = Entry::X;
         prog.push(row(es));
+        // one bit per column, whatever the column's width and the argument's sign
+        prog.push(row(vec![Entry::Bits(5, Expr::id("t"))]));
+        prog.push(row(vec![Entry::Bits(2, Expr::bin("-", Expr::num(0), Expr::id("t"))), Entry::Bits(3, Expr::un("~", Expr::id("t")))]));
     }
     let test = Test { header: header.clone(), supplied, prog };
     let layout = choose_layout(Lay::Mixed, seed, &mut rng);
@@ -628,7 +633,31 @@ fn error_run(prop: &str, run: usize, seed: u64) -> Vec<J> {
 fn mismatch_run(prop: &str, run: usize, seed: u64) -> Vec<J> {
     let mut g = Gen::new(seed, Knobs { p_device: 0.3, p_c: 0.2, p_x: 0.05, p_bits: 0.45, bidir: true, max_stmts: 8, max_virtuals: 2, max_depth: 2, ..Knobs::control_flow() });
     let plan = g.plan();
-    let prog = g.program(&plan);
+    let mut prog = g.program(&plan);
+    // now and then a clock entry in a column that is not an input column (an output, a `<name>_out` or a virtual column):
+    // such a test must be refused (C11), and if it is not, running it must still not panic (C10)
+    if g.rng.gen_bool(0.15) {
+        let cols: Vec<usize> = (0..plan.header.len()).filter(|&c| !plan.col_is_input[c]).collect();
+        fn first_plain_row(stmts: &mut [Stmt]) -> Option<&mut Vec<Entry>> {
+            for s in stmts {
+                match s {
+                    Stmt::Row { entries, .. } | Stmt::Repeat { entries, .. } if entries.iter().all(|e| e.width() == 1) => return Some(entries),
+                    Stmt::Loop { body, .. } | Stmt::While { body, .. } => {
+                        if let Some(e) = first_plain_row(body) {
+                            return Some(e);
+                        }
+                    }
+                    _ => {}
+                }
+            }
+            None
+        }
+        if let (Some(&c), Some(entries)) = (cols.choose(&mut g.rng), first_plain_row(&mut prog)) {
+            if c < entries.len() {
+                entries[c] = Entry::C;
+            }
+        }
+    }
     let mut supplied = plan.supplied.clone();
     // zero to two edits of the signal list; half of them aim at a signal whose column holds a clock entry or that an
     // expression reads (those are the signals the binder's checks are about)
@@ -744,8 +773,10 @@ fn sched_run(prop: &str, run: usize, seed: u64) -> Vec<J> {
         // not static after all)
         if run % 4 == 2 {
             let k = g.rng.gen_range(0..g.k.vars.len());
+            let b_bidir = plan.supplied.iter().any(|s| s.name == "B" && s.dir == Dir::Bidir);
             if let Stmt::Let { name, e } = &mut prog[k] {
-                *e = Expr::bin("+", Expr::Id(name.clone()), Expr::Num(1));
+                // ... or the one thing read from the device is a bidirectional signal (output-capable, so not static either)
+                *e = if run % 8 == 6 && b_bidir { Expr::bin("+", Expr::id("B"), Expr::Num(1)) } else { Expr::bin("+", Expr::Id(name.clone()), Expr::Num(1)) };
             }
         }
     }
